@@ -570,6 +570,7 @@ def _merge_dict_into_dict(
 def _merge_dict_into_list(
     dest: List[Any],
     src: Dict[int, Any],
+    merge_fn: Optional[Callable[[KeyPath, Any, Any], Any]],
     root_path: KeyPath) -> List[Any]:
   """Merge (possible) sparsed indexed list (in dict form) into a list."""
   for child_key in src.keys():
@@ -581,10 +582,18 @@ def _merge_dict_into_list(
   if num_int_keys == len(src.keys()):
     old_size = len(dest)
     for int_key in sorted(src.keys()):
+      new_value = src[int_key]
       if int_key < old_size:
-        dest[int_key] = src[int_key]
+        # NOTE: as for dicts, `merge_fn` decides on the items it is given for.
+        if merge_fn:
+          new_value = merge_tree(
+              dest[int_key], new_value, merge_fn, KeyPath(int_key, root_path))
+        dest[int_key] = new_value
       else:
-        dest.append(src[int_key])
+        if merge_fn:
+          new_value = merge_fn(
+              KeyPath(int_key, root_path), MISSING_VALUE, new_value)
+        dest.append(new_value)
   return dest
 
 
@@ -628,7 +637,7 @@ def merge_tree(dest: Any,
 
   if isinstance(dest, list) and isinstance(src, dict):
     # Merge (possible) sparse indexed list into a list.
-    return _merge_dict_into_list(dest, src, root_path)
+    return _merge_dict_into_list(dest, src, merge_fn, root_path)
 
   # Merge at root level.
   if merge_fn:
